@@ -42,6 +42,8 @@ type RRule struct {
 type RProg struct {
 	Rules    []RRule
 	Fallback ROut
+	// SharedPrefixTwin: the generator planted a pair of conditions sharing their first written values (RGen.SharedPrefix)
+	SharedPrefixTwin bool `json:"-"`
 }
 
 // RPkt is a packet description.
@@ -471,6 +473,11 @@ type RGen struct {
 	// dae refuses such a program ("char out of range"); callers must accept that refusal
 	// (RProg.HasBadKeyword) and judge the decisions only when the build succeeded.
 	BadKeyword bool
+	// SharedPrefix: one program in three gets a pair of conditions of the same function and
+	// negation whose first 3-8 WRITTEN values are textually identical and whose later values
+	// differ (anything that memoises, de-duplicates or compares conditions by an abbreviated
+	// or truncated rendering confuses exactly such a pair).
+	SharedPrefix bool
 }
 
 // PoolDomKeywordBad are keyword values the Aho-Corasick automaton cannot hold.
@@ -750,7 +757,47 @@ func (g *RGen) Gen() *RProg {
 		p.Rules = append(p.Rules, r)
 	}
 	p.Fallback = g.genOut(false)
+	if g.SharedPrefix && g.R.IntN(3) == 0 {
+		g.addSharedPrefixTwin(p)
+	}
 	return p
+}
+
+// addSharedPrefixTwin: see RGen.SharedPrefix.
+func (g *RGen) addSharedPrefixTwin(p *RProg) {
+	type pos struct{ r, c int }
+	var cand []pos
+	for ri, r := range p.Rules {
+		for ci, c := range r.Conds {
+			switch c.Func {
+			case "l4proto", "ipversion":
+			default:
+				cand = append(cand, pos{ri, ci})
+			}
+		}
+	}
+	if len(cand) == 0 {
+		return
+	}
+	at := cand[g.R.IntN(len(cand))]
+	c0 := &p.Rules[at.r].Conds[at.c]
+	k := 3 + g.R.IntN(6)
+	for len(c0.Params) < k {
+		c0.Params = append(c0.Params, g.genCond(c0.Func).Params...)
+	}
+	twin := RCond{Func: c0.Func, Not: c0.Not, Params: append([]RParam(nil), c0.Params[:k]...)}
+	// both lists continue differently after the shared prefix
+	c0.Params = append(c0.Params[:k:k], g.genCond(c0.Func).Params...)
+	twin.Params = append(twin.Params, g.genCond(c0.Func).Params...)
+	p.SharedPrefixTwin = true
+	r := RRule{Conds: []RCond{twin}, Out: g.genOut(true)}
+	if g.R.IntN(3) == 0 {
+		r.Conds = append(r.Conds, g.genCond(g.funcs()[g.R.IntN(len(g.funcs()))]))
+	}
+	ins := at.r + 1 + g.R.IntN(len(p.Rules)-at.r)
+	p.Rules = append(p.Rules, RRule{})
+	copy(p.Rules[ins+1:], p.Rules[ins:])
+	p.Rules[ins] = r
 }
 
 // ---- packet generation: boundary neighbours of every constant ----------
